@@ -454,19 +454,5 @@ example (ks : List Nat) (n : Nat) : exactIsim ks n =
     (((ks.map (fun k => k * (k - 1) / 2)).sum : Nat) : ℚ) /
     (((ks.map (fun k => k * (k - 1) / 2 + k * (n - k))).sum : Nat) : ℚ) := rfl
 
-#print axioms isim_none
-#print axioms isim_isSome
-#print axioms isim_empty
-#print axioms isim_no_wrap
-#print axioms isim_exact
-#print axioms isim_den_pos
-#print axioms isim_perm
-#print axioms colSum_perm
-#print axioms isimRows_perm
-#print axioms isim_pair
-#print axioms complIsim_spec
-#print axioms isim_le_one
-#print axioms addLs_comm_I
-#print axioms addLs_assoc_I
 
 end BB
